@@ -12,6 +12,24 @@ Theorem C08_operations : forall u ops m, plan_ops u ops = Some m ->
 Proof. exact plan_ops_own_names. Qed.
 Print Assumptions C08_operations.
 
+(* with the packages of the tags: server and client compare go names inside each package, the cli (one package for the
+   commands of all operations: flat = true) across all of them *)
+Theorem C08_operations_packages : forall u pk flat ops m, plan_ops_pkg u pk flat ops = Some m ->
+  (forall o, In o ops -> exists k e, In (k, e) m /\ same_route e o) /\
+  NoDup (map fst m) /\
+  (forall o1 o2 k1 k2 e1 e2, In (k1, e1) m -> In (k2, e2) m -> same_route e1 o1 -> same_route e2 o2 -> ~ same_route o1 o2 ->
+     k1 <> k2 /\ ((flat = true \/ pkg_of pk e1 = pkg_of pk e2) -> pascalize u k1 <> pascalize u k2)).
+Proof. exact plan_ops_pkg_own_names. Qed.
+Print Assumptions C08_operations_packages.
+
+(* two operations of different tags whose ids give the same go name: accepted by server and client, refused by the cli *)
+Example C08_packages_nonvacuous :
+  let ops := [{| o_method := s "POST"; o_path := s "/orders/search"; o_id := s "search-items" |};
+              {| o_method := s "POST"; o_path := s "/products/search"; o_id := s "search_items" |}] in
+  let pk := [((s "POST", s "/orders/search"), s "orders"); ((s "POST", s "/products/search"), s "products")] in
+  (exists m, plan_ops_pkg au pk false ops = Some m /\ length m = 2) /\ plan_ops_pkg au pk true ops = None /\ plan_ops_pkg au [] false ops = None.
+Proof. split; [eexists; split; vm_compute; reflexivity|]. split; vm_compute; reflexivity. Qed.
+
 Theorem C08_definitions : forall u defs p, plan_defs u defs = Some p ->
   map fst p = defs /\ NoDup (map (def_type u) defs) /\ NoDup (map (def_file u) defs).
 Proof. exact plan_defs_own_names. Qed.
